@@ -23,6 +23,14 @@ CLAIM_WAVE4 = ("Also proved (Props/C08_more.v, C08_ops.v): reader = lexer under 
                "and the Lexer cursor laws (position/remainder invariant kept by every method, next vs read, peek, id-then-payload).")
 # <<< a_c08
 PROFILES = ["release", "debug"]
+# >>> w_buf (wave 5)
+RULE += ("; wave 5 (props/bufstore.py, coq/theories/BufStore.v): buffer.rs at STORAGE level -- op lists (fill_buf over a scripted, possibly "
+         "scribbling Read; advance; advance_to; get; window/position/consumed_data after every op) on the real BufferWindow for every "
+         "capacity 0..40 over dirty buffers (bytes of the data alphabet), zeroed buffers, the bufferless slice window and buffers recycled from a "
+         "previous window; schedules with short reads, reads at the end of the data (Ok(0)), full buffers, faults; extracted storage model = "
+         "implementation, and a stream-level python oracle that keeps no buffer contents (window = slice of the delivered data at position)")
+TRUSTED = TRUSTED + ["props/bufstore.Sim: offsets-only reference of BufferWindow (oracle bufstore-window / bufstore-position / bufstore-full)"]
+# <<< w_buf
 
 OPEN, CLOSE, EQUAL, U32, U64, I32, BOOL, QUOTED, UNQUOTED, F32, F64, RGB, I64 = (
     0x0003, 0x0004, 0x0001, 0x0014, 0x029c, 0x000c, 0x000e, 0x000f, 0x0017, 0x000d, 0x0167, 0x0243, 0x0317)
@@ -605,6 +613,10 @@ def run(ctx):
     from props import C08_more
     C08_more.run_more(ctx)
     # <<< a_c08
+    # >>> w_buf (wave 5): buffer.rs at storage level (shared with C07; own seed), see props/bufstore.py
+    from props import bufstore
+    bufstore.run(ctx, "C08", 3000, 40000)
+    # <<< w_buf
 
 
 def search(ctx):
